@@ -48,7 +48,8 @@ func judgeKw(c *CheckCtx, rn Runner, k *kwCase) *Violation {
 		return nil
 	}
 	a, b := parseOut(o1), parseOut(o2)
-	return &Violation{Sig: "kwargs:" + k.Shape + ":" + diffTemplate(a, b), Kind: "kwargs", Case: mustJSON(k),
+	sig := "kwargs:" + k.Shape + ":" + diffTemplate(a, b)
+	return &Violation{Sig: sig, Kind: "kwargs", Case: mustJSON(k),
 		What:     fmt.Sprintf("permuting the keyword arguments of a call (%s; order %v) changes the output (argv %v)", k.Shape, k.Perm, k.Mode),
 		Expected: clip(o1, 3000), Observed: clip(o2, 3000)}
 }
@@ -73,7 +74,9 @@ func permutations(n int) [][]int {
 	return out
 }
 
-var kwValueExprs = []string{"1", "\"s\"", "1.5", ":sym", "nil", "[1]", "true", "{a: 1}"}
+var kwValueExprs = []string{"1", "\"s\"", "1.5", ":sym", "nil", "[1]", "true", "{a: 1}",
+	// operator expressions of different precedence, calls, nested calls
+	"2 * 50", "1 + 0.5", "10 - 3", "7 % 2", "\"a\" + \"b\"", "\"ab\" * 2", "1 + 2 * 3", "2 * 3 + 1", "x0 + 1", "x0.to_s", "\"s\".length", "[1, 2].first", "1.5.to_i + 1", "x0 == 1", "x0 < 2", "-1", "!true"}
 
 // genKwCall builds one program with a keyword-taking method and a call.
 func genKwCall(r *RNG) *kwCase {
@@ -98,8 +101,12 @@ func genKwCall(r *RNG) *kwCase {
 		}
 	}
 	var sb strings.Builder
-	inClass := r.Chance(1, 3)
-	static := inClass && r.Bool()
+	inClass := r.Chance(1, 2)
+	static := inClass && r.Chance(1, 3)
+	recvKind := "plain"
+	if inClass && !static {
+		recvKind = Pick(r, []string{"plain", "plain", "union", "nilable", "variable"})
+	}
 	ind := ""
 	if inClass {
 		sb.WriteString("class Kwbox\n")
@@ -124,10 +131,27 @@ func genKwCall(r *RNG) *kwCase {
 			recv = "Kwbox."
 		}
 	}
+	switch recvKind {
+	case "union":
+		// a second class with the same method: the receiver is a union of both
+		second := strings.Replace(sb.String(), "class Kwbox", "class Kwother", 1)
+		sb.WriteString(second)
+		sb.WriteString("kwflag = true\nkwrecv = kwflag ? Kwbox.new : Kwother.new\n")
+		recv = "kwrecv."
+	case "nilable":
+		sb.WriteString("kwflag = true\nkwrecv = kwflag ? Kwbox.new : nil\n")
+		recv = "kwrecv&."
+	case "variable":
+		sb.WriteString("kwrecv = Kwbox.new\n")
+		recv = "kwrecv."
+	}
 	// the call: positionals first, then a selection of keywords
 	shape := "user"
 	if inClass {
 		shape = "user-method-in-class"
+	}
+	if recvKind != "plain" {
+		shape += ":" + recvKind + "-receiver"
 	}
 	var kws []string
 	var pos []string
